@@ -21,7 +21,7 @@ from harness.common.ctx import Timeout, time_limit
 EXE = "c13_model"
 
 THEORIES_QUICK = ["logic_base", "logic", "function", "list", "hoare", "nat", "set"]
-THEORIES_THOROUGH = ["logic_base", "logic", "function", "list", "hoare", "nat", "set", "expr", "topology", "limits"]
+THEORIES_THOROUGH = ["logic_base", "logic", "function", "list", "hoare", "nat", "set", "expr", "topology"]
 
 # theorems the method machinery itself cites (parse_init_state's `intros`, cases, exists/forall steps):
 # a theory "contains the base logic" once these are present
@@ -460,6 +460,8 @@ def fill_params(state, sugg, rng, query=None):
             if not vs:
                 return None
             step["var"] = rng.choice(vs).name
+        elif p.startswith("param_") and name == "apply_forward_step" and rng.random() < 0.5:
+            step[p] = ""          # blank = keep the variable general (what the suggestion advertised)
         elif p.startswith("param_"):
             T = param_type(state, step, p[6:], goal_pos, facts)
             cands = typed(pool, T) if T is not None else []
@@ -621,16 +623,20 @@ def perturb(step, state, rng):
 class Runner:
     """Runs one edit sequence on one goal, judging every completed step."""
 
-    def __init__(self, ctx, goal, rng, export_rate=1.0, recorder=None):
+    def __init__(self, ctx, goal, rng, export_rate=1.0, recorder=None, observer=None, judge_states=True):
         self.ctx, self.goal, self.rng = ctx, goal, rng
         self.export_rate = export_rate
         self.recorder = recorder
+        self.observer = observer           # called with (runner, state) on every reached state (C14)
+        self.judge_states = judge_states
         self.trail = []          # [{"step":…, "on_copy":bool, "adopt":bool, "outcome":…}]
         self.frozen = []         # earlier copies with their snapshots: must never change
         self.state = goal.init_state()
         self.goal_th = self.state.prf.items[-1].th
         self.dead = False
         self.judge(self.state, "init", None)
+        if self.observer is not None:
+            self.observer(self, self.state)
 
     # -------------------------------------------------------------- reporting
     def replay_dict(self, extra=None):
@@ -655,6 +661,8 @@ class Runner:
         self.ctx.count("violation:" + cls)
 
     def judge(self, state, method_name, step):
+        if not self.judge_states:
+            return True
         do_export = self.export_rate >= 1.0 or self.rng.random() < self.export_rate
         try:
             bad = check_invariants(self.goal, state, self.goal_th, do_export=do_export)
@@ -682,8 +690,6 @@ class Runner:
         before = snapshot(self.state)
         target = copy.copy(self.state) if on_copy else self.state
         entry = {"step": clean_step(step), "on_copy": on_copy, "adopt": adopt, "source": source}
-        if self.recorder is not None:
-            self.recorder.begin(target)
         outcome, err = "ok", None
         try:
             with time_limit(STEP_LIMIT):
@@ -696,9 +702,6 @@ class Runner:
             outcome, err = "crash", e
         except Exception as e:  # noqa   holpy's own failure signals
             outcome, err = "fail", e
-        finally:
-            if self.recorder is not None:
-                self.recorder.end(outcome == "ok")
         entry["outcome"] = outcome if err is None else "%s:%s" % (outcome, type(err).__name__)
         name = step.get("method_name", "?")
         ctx.count("%s:%s:%s" % (source or "step", name, outcome))
@@ -729,8 +732,8 @@ class Runner:
                 self.state = target
             else:
                 self.trail[-1]["adopt"] = False
-        else:
-            pass
+        if ok and self.observer is not None and (not on_copy or adopt):
+            self.observer(self, self.state)
         if self.rng.random() < 0.25:
             self.freeze(copy.copy(self.state), snapshot(self.state))
         return outcome
@@ -824,11 +827,11 @@ def gen_goals(rng, n):
 
 
 # ====================================================================== sequences
-def run_recorded(ctx, goal, rng, perturb_rate, export_rate, recorder=None):
+def run_recorded(ctx, goal, rng, perturb_rate, export_rate, recorder=None, **kw):
     """Replay the recorded steps; with probability `perturb_rate` per position inject a
     perturbation (repeat / other goal / other facts / interleaved method), on the live state or on
     a copy that is discarded or adopted."""
-    r = Runner(ctx, goal, rng, export_rate, recorder)
+    r = Runner(ctx, goal, rng, export_rate, recorder, **kw)
     for i, step in enumerate(goal.steps):
         if r.dead:
             break
@@ -854,9 +857,9 @@ def run_recorded(ctx, goal, rng, perturb_rate, export_rate, recorder=None):
     return r
 
 
-def run_walk(ctx, goal, rng, length, export_rate, recorder=None):
+def run_walk(ctx, goal, rng, length, export_rate, recorder=None, **kw):
     """Random walk: suggestions of search_method and interleaved generated method applications."""
-    r = Runner(ctx, goal, rng, export_rate, recorder)
+    r = Runner(ctx, goal, rng, export_rate, recorder, **kw)
     for _ in range(length):
         if r.dead:
             break
@@ -873,6 +876,292 @@ def run_walk(ctx, goal, rng, length, export_rate, recorder=None):
             r.apply(dict(r.trail[-1]["step"]), on_copy=rng.random() < 0.5, adopt=True, source="repeat")
     r.check_frozen()
     return r
+
+
+# ====================================================================== correspondence with the Lean model
+RULE_CODES = {"": 0, "sorry": 1, "trivial": 2, "subproof": 3}
+
+
+class Recorder:
+    """Records every outermost call of the structural primitives of ProofState made by the real
+    methods, with the line structure before and after, for replay on the Lean model."""
+
+    PRIMS = ["add_line_before", "remove_line", "set_line", "replace_id", "apply_tactic", "find_goal"]
+
+    def __init__(self, limit, every=1):
+        self.limit = limit
+        self.every = every
+        self.calls = 0
+        self.records = []
+        self.depth = 0
+        self.term_codes = {}
+        self.rule_codes = dict(RULE_CODES)
+        self.orig = {}
+        self.export_capture = None
+        self.skipped = 0
+
+    # ---- encoding
+    def tcode(self, t):
+        c = self.term_codes.get(t)
+        if c is None:
+            c = len(self.term_codes) + 1
+            self.term_codes[t] = c
+        return c
+
+    def rcode(self, r):
+        if r not in self.rule_codes:
+            self.rule_codes[r] = len(self.rule_codes) + 1
+        return self.rule_codes[r]
+
+    def th(self, th):
+        if th is None:
+            return "N"
+        return [self.tcode(th.prop), [self.tcode(h) for h in th.hyps]]
+
+    def item(self, it):
+        sub = [self.item(x) for x in it.subproof.items] if it.subproof is not None else []
+        return [list(it.id.id), self.rcode(it.rule), [list(p.id) for p in it.prevs], self.th(it.th), it.subproof is not None, sub]
+
+    def state(self, st):
+        return [self.item(it) for it in st.prf.items]
+
+    # ---- installation
+    def install(self):
+        from kernel.proofterm import ProofTerm
+        from server import method
+        PS = method.ProofState
+        rec = self
+        for name in self.PRIMS:
+            orig = getattr(PS, name)
+            self.orig[name] = orig
+
+            def make(name, orig):
+                def wrapped(st, *a, **kw):
+                    if rec.depth == 0:
+                        rec.calls += 1
+                    if rec.depth > 0 or len(rec.records) >= rec.limit or rec.calls % rec.every != 0:
+                        rec.depth += 1
+                        try:
+                            return orig(st, *a, **kw)
+                        finally:
+                            rec.depth -= 1
+                    try:
+                        before = rec.state(st)
+                        args = rec.encode_args(name, st, a, kw)
+                    except Exception:  # noqa   (ids that are not tuples of non-negative ints, ...)
+                        before = None
+                    rec.depth += 1
+                    rec.export_capture = [] if name == "apply_tactic" else None
+                    ok = False
+                    try:
+                        res = orig(st, *a, **kw)
+                        ok = True
+                        return res
+                    finally:
+                        rec.depth -= 1
+                        cap, rec.export_capture = rec.export_capture, None
+                        if ok and before is not None and args is not None:
+                            try:
+                                rec.finish(name, st, a, kw, before, args, res, cap)
+                            except Exception:  # noqa
+                                rec.skipped += 1
+                        else:
+                            rec.skipped += 1
+                return wrapped
+            setattr(PS, name, make(name, orig))
+        orig_export = ProofTerm.export
+        self.orig_export = orig_export
+
+        def export(pt, prefix=None, prf=None, subproof=True):
+            res = orig_export(pt, prefix=prefix, prf=prf, subproof=subproof)
+            if rec.export_capture is not None and not subproof and not rec.export_capture:
+                from logic import logic
+                lines = []
+                for it in res.items:
+                    triv = False
+                    if it.rule == "sorry":
+                        try:
+                            triv = bool(logic.trivial_macro().can_eval(it.th.prop))
+                        except Exception:  # noqa
+                            triv = False
+                    lines.append([rec.item(it), triv])
+                rec.export_capture.append(lines)
+            return res
+        ProofTerm.export = export
+
+    def uninstall(self):
+        from kernel.proofterm import ProofTerm
+        from server import method
+        for name, orig in self.orig.items():
+            setattr(method.ProofState, name, orig)
+        ProofTerm.export = self.orig_export
+
+    @staticmethod
+    def idl(x):
+        from kernel.proof import ItemID
+        t = ItemID(x).id
+        assert all(isinstance(i, int) and i >= 0 for i in t)
+        return list(t)
+
+    def encode_args(self, name, st, a, kw):
+        if name == "add_line_before":
+            n = a[1] if len(a) > 1 else kw["n"]
+            if n < 0:
+                return None
+            return [self.idl(a[0]), n]
+        if name == "remove_line":
+            return [self.idl(a[0])]
+        if name == "set_line":
+            return [self.idl(a[0]), self.rcode(a[1]), [self.idl(p) for p in (kw.get("prevs") or [])]]
+        if name == "replace_id":
+            return [self.idl(a[0]), self.idl(a[1])]
+        if name == "apply_tactic":
+            return [self.idl(a[0])]
+        if name == "find_goal":
+            return [self.th(a[0]), self.idl(a[1])]
+        return None
+
+    def finish(self, name, st, a, kw, before, args, res, cap):
+        after = self.state(st)
+        if name == "add_line_before":
+            op = ["add", before] + args
+        elif name == "remove_line":
+            op = ["remove", before] + args
+        elif name == "set_line":
+            it = st.get_proof_item(tuple(args[0]))
+            op = ["set", before] + args + [self.th(it.th)]       # the sequent the checker computed is an input
+        elif name == "replace_id":
+            op = ["replace", before] + args
+        elif name == "apply_tactic":
+            if not cap:
+                self.skipped += 1
+                return
+            op = ["tactic", before, args[0], cap[0]]
+        elif name == "find_goal":
+            op = ["find", before] + args
+            after = ["ok", "N" if res is None else list(res.id)]
+            self.records.append((name, op, after))
+            return
+        self.records.append((name, op, ["ok", after]))
+
+
+def norm(x):
+    """sexp.loads output / python structure -> comparable nested lists of strings."""
+    if isinstance(x, bool):
+        return "T" if x else "F"
+    if isinstance(x, int):
+        return str(x)
+    if isinstance(x, str):
+        return x
+    return [norm(y) for y in x]
+
+
+def py_wf(items):
+    """The harness's own statement of numbering + citations on an encoded structure."""
+    def rec(lst, pre):
+        for k, it in enumerate(lst):
+            iid, rule, prevs, th, hs, sub = it
+            pos = pre + (k,)
+            if tuple(iid) != pos:
+                return False
+            if not all(visible(tuple(p), tuple(iid)) for p in prevs):
+                return False
+            if not hs and sub:
+                return False
+            if not rec(sub, pos):
+                return False
+        return True
+    return rec(items, ())
+
+
+def mutate_structure(items, rng):
+    """Adversarial variant of a real structure: one id or citation changed, or a line dropped."""
+    items = copy.deepcopy(items)
+    flat = []
+
+    def rec(lst):
+        for it in lst:
+            flat.append((lst, it))
+            rec(it[5])
+    rec(items)
+    if not flat:
+        return items
+    lst, it = rng.choice(flat)
+    k = rng.randint(0, 3)
+    if k == 0 and it[0]:
+        it[0][-1] += rng.choice([1, 2])
+    elif k == 1:
+        it[2].append([rng.randint(0, 4) for _ in range(rng.randint(1, 3))])
+    elif k == 2 and it[2]:
+        it[2][0] = list(it[0])
+    else:
+        lst.remove(it)
+    return items
+
+
+def correspondence(ctx, recorder):
+    from kernel.proof import ItemID
+    rng = ctx.rng("ids")
+    lines, expect, label = [], [], []
+    # --- ItemID arithmetic on generated ids (shared prefixes on purpose)
+    def rid():
+        return [rng.randint(0, 3) for _ in range(rng.randint(1, 4))]
+    for _ in range(ctx.scale(3000, 30000)):
+        a = rid()
+        b = rid()
+        if rng.random() < 0.6:
+            k = rng.randint(0, min(len(a), len(b)))
+            b = a[:k] + b[k:]
+            if not b:
+                b = [0]
+        n = rng.randint(0, 3)
+        A, B = ItemID(tuple(a)), ItemID(tuple(b))
+        lines.append(sexp.dumps(["incr", a, b, n]))
+        expect.append(norm(list(A.incr_id_after(B, n).id)))
+        label.append("itemid:incr_id_after")
+        lines.append(sexp.dumps(["decr", a, b]))
+        expect.append(norm(list(A.decr_id(B).id)))
+        label.append("itemid:decr_id")
+        lines.append(sexp.dumps(["incrid", a, n]))
+        expect.append(norm(list(A.incr_id(n).id)))
+        label.append("itemid:incr_id")
+        lines.append(sexp.dumps(["dep", a, b]))
+        expect.append(norm(bool(A.can_depend_on(B))))
+        label.append("itemid:can_depend_on")
+    # --- the primitives the real run performed
+    wf_rng = ctx.rng("wf")
+    for name, op, after in recorder.records:
+        lines.append(sexp.dumps(op))
+        expect.append(norm(after))
+        label.append("op:" + name)
+        if name != "find_goal" and wf_rng.random() < 0.3:
+            st = after[1]
+            lines.append(sexp.dumps(["wf", st]))
+            expect.append(norm(py_wf(st)))
+            label.append("wf:real")
+            m = mutate_structure(st, wf_rng)
+            lines.append(sexp.dumps(["wf", m]))
+            expect.append(norm(py_wf(m)))
+            label.append("wf:mutated")
+    out = ctx.lean_driver(EXE, lines) if lines else []
+    if out is None or len(out) != len(lines):
+        ctx.broken("correspondence:c13:driver", "model driver unavailable or answered %s lines for %d" % (None if out is None else len(out), len(lines)))
+        return
+    ndis = 0
+    for ln, exp, lab, got in zip(lines, expect, label, out):
+        ctx.count("model:" + lab)
+        try:
+            g = norm(sexp.loads(got))
+        except Exception:  # noqa
+            g = got
+        if g != exp:
+            ndis += 1
+            if ndis <= 3:
+                ctx.broken("correspondence:c13:" + lab, "input=%s impl=%s model=%s" % (ln[:600], str(exp)[:400], str(g)[:400]))
+                ctx.coverage["disagreements_checked"] += 1
+    ctx.coverage["model_comparisons"] = len(lines)
+    ctx.coverage["primitive_calls_skipped"] = recorder.skipped
+    ctx.log("correspondence: %d model answers compared, %d disagreements" % (len(lines), ndis))
 
 
 # ====================================================================== main
@@ -903,7 +1192,13 @@ def run(ctx):
         "did not complete: nothing is claimed about the state it leaves; the harness continues from a rebuilt state (the web app edits copies)",
         "lines justified by the `z3` macro are accepted without calling Z3 (z3wrapper.check_z3 = False, as server/monitor.py does)",
         "copy isolation is checked on the real objects after every step; it is not a theorem (a pure model cannot exhibit sharing)"]
-    oracle_streams(ctx)
+    recorder = Recorder(ctx.scale(3000, 40000), every=ctx.scale(5, 2))
+    recorder.install()
+    try:
+        oracle_streams(ctx, recorder)
+    finally:
+        recorder.uninstall()
+    correspondence(ctx, recorder)
 
 
 def neutralise_z3(ctx):
@@ -945,6 +1240,9 @@ def oracle_streams(ctx, recorder=None):
                         ctx.sample({"goal": g.ident(), "steps": [clean_step(s) for s in g.steps[:4]]})
         except Timeout:
             ctx.count("timeout:theory:" + thy)
+        except Exception as e:  # noqa   loading the theory itself failed (C12's subject)
+            ctx.count("theory-load-fails:%s:%s" % (thy, type(e).__name__))
+            ctx.log("theory %s could not be loaded: %s" % (thy, short(e)))
         ctx.log("theory %s: %d goals, %d cases so far" % (thy, len(goals), ctx.coverage["evaluations"]))
     # generated goals
     from logic import basic
